@@ -10,6 +10,7 @@
 //!   `c10.ctor.pwsn S S ORA`         `UserId::parse_with_server_name` (+ `_rc`, `_arc`)
 //!   `c10.ctor.key <kind> S S`       `KeyId::from_parts`
 //!   `c10.ctor.new <kind> S`         `UserId::new` / `RoomId::new` / `EventId::new` (T3 only)
+//!   `c10.ctor.b64 S`                `OwnedBase64PublicKey::with_bytes` (S = raw bytes in hex)
 //!   `c10.exh <kind> S ORA`          `c10.id` on prefix ++ [a, b] for all a, b of the alphabet
 mod gen;
 mod spec;
@@ -602,8 +603,10 @@ fn run_new(kind: Kind, server: &str) -> Outcome {
                 && lp.bytes().all(|b| b.is_ascii_alphanumeric() && !(lower && b.is_ascii_uppercase())) => {}
         _ => t3.push(format!("{}::new is not sigil ++ {n} alphanumerics ++ \":\" ++ server", kind.name())),
     }
-    if built.len() <= 255 && !accepted(kind, &built) {
-        t3.push(format!("{}::new built an identifier the parser rejects", kind.name()));
+    // no exception for over-long results: the known finding (server names of >= 242 / 236 bytes)
+    // is replayed here on every run and suppressed only by its entry in findings/C10.json
+    if !accepted(kind, &built) {
+        t3.push(format!("{}::new built an identifier the parser rejects ({} bytes)", kind.name(), built.len()));
     }
     if kind == Kind::User && built.len() <= 255 {
         if let Ok(u) = <&UserId>::try_from(built.as_str()) {
@@ -613,6 +616,33 @@ fn run_new(kind: Kind, server: &str) -> Outcome {
         }
     }
     Outcome { imp: "ok".into(), t3 }
+}
+
+fn run_b64(bytes: &[u8]) -> Outcome {
+    use ruma_common::serde::{base64::Standard, Base64};
+    let mut t3 = vec![];
+    let a = h_util::guarded(|| OwnedBase64PublicKey::with_bytes(bytes).as_str().to_owned());
+    let b = h_util::guarded(|| OwnedBase64PublicKey::from(Base64::<Standard, _>::new(bytes.to_vec())).as_str().to_owned());
+    if a != b {
+        t3.push("with_bytes and From<Base64<Standard, _>> disagree".into());
+    }
+    let imp = match &a {
+        Err(()) => {
+            t3.push("OwnedBase64PublicKey::with_bytes panicked (its unreachable!() was reached)".into());
+            "panic".to_owned()
+        }
+        Ok(r) => {
+            if !accepted(Kind::Base64PublicKey, r) {
+                t3.push("with_bytes built a key the Base64PublicKey parser rejects".into());
+            }
+            match <&Base64PublicKey>::try_from(r.as_str()).ok().and_then(|k| Base64::<Standard, Vec<u8>>::try_from(k).ok()) {
+                Some(d) if d.as_bytes() == bytes => {}
+                _ => t3.push("with_bytes result does not decode back to the given bytes".into()),
+            }
+            format!("ok {}", stok(r))
+        }
+    };
+    Outcome { imp, t3 }
 }
 
 // ------------------------------------------------------------------------------------------
@@ -700,6 +730,13 @@ pub fn run(req: &str) -> Outcome {
             };
             run_key_ctor(kind, &alg, &name)
         }
+        "c10.ctor.b64" => {
+            if toks.len() != 2 {
+                return bad();
+            }
+            let Some(bytes) = toks[1].strip_prefix('s').and_then(h_util::unhex) else { return bad() };
+            run_b64(&bytes)
+        }
         "c10.ctor.new" => {
             let (Some(kind), Some(srv)) = (toks.get(1).and_then(|k| Kind::parse(k)), toks.get(2).and_then(|t| arg(t))) else {
                 return bad();
@@ -756,7 +793,13 @@ fn exh_requests(kind: Kind, max_prefix: usize, out: &mut Vec<Req>) {
 
 fn ctor_requests(rng: &mut Rng, out: &mut Vec<Req>) {
     let server = gen::gen_good_server(rng);
-    match rng.below(4) {
+    match rng.below(5) {
+        4 => {
+            // with_bytes: every short length (0 = the known finding), sometimes longer
+            let n = if rng.chance(1, 6) { rng.range(30, 70) as usize } else { rng.below(8) };
+            let bytes: Vec<u8> = (0..n).map(|_| if rng.chance(1, 4) { *rng.pick(&[0u8, 255, 251, 239, 62, 63]) } else { rng.below(256) as u8 }).collect();
+            out.push(Req::new(format!("c10.ctor.b64 s{}", h_util::hex(&bytes)), "ctor-b64.ctor"));
+        }
         0 | 1 => {
             // parse_with_server_name: full user IDs, localparts, boundary lengths, junk
             let id = match rng.below(7) {
